@@ -21,6 +21,7 @@ def generate(rng, idx, tier, variant):
         names = list(spec['names'])
     else:
         spec = S.gen_spec(rng, 'solver_faults', tier)
+        spec.pop('mixins', None)
         pokes = []
         names = spec['endo'] + spec['exo']
     n, lags, leads = spec['span']['n'], spec['lags'], spec['leads']
